@@ -17,7 +17,7 @@ pub fn case_c03_wire(t: &mut Tape, ctx: &CaseCtx) -> CaseResult {
         script.reboot_needed = vec![true; 3];
         script.reboot_allowed = vec![(false, false), (false, false), (false, false), (false, false), (false, false), (true, true)];
     }
-    let lives = vec![LifePlan { oneshot: t.chance(1, 8), checks: 1 + t.choose(3), crash_at: None }];
+    let lives = vec![LifePlan { oneshot: t.chance(1, 8), checks: 1 + t.choose(3), crash_at: None, wall_at_start: None }];
     let h = run_history(script, &lives);
     let latest = h.script.cup.as_ref().unwrap().keys[0].0;
     let configured = match split_url(&h.script.service_url) {
